@@ -33,7 +33,8 @@ from embit.liquid.pset import PSET
 import embit.liquid.transaction  # noqa  (immediate caller: unblind)
 
 PROP = "C20"
-MODS = ["EmbitModel.Props.C20", "EmbitModel.Props.C20Facts", "EmbitModel.Props.C20X", "EmbitModel.Props.C20XFacts"]
+MODS = ["EmbitModel.Props.C20", "EmbitModel.Props.C20Facts", "EmbitModel.Props.C20X", "EmbitModel.Props.C20XFacts",
+        "EmbitModel.Props.C20Complete"]
 NPOOL = 3
 
 _POOL = {}
@@ -516,8 +517,63 @@ def fact_failures():
     return out
 
 
+def completeness_failures():
+    """Props/C20Complete.every_enumerated_entry_locked evaluated in Python: functions of the loaded module that reach the
+    library in the independent call graph (harness/bindnames.py) and have no record in the probe table"""
+    recs = [f["name"] for f in facts.LAST_BINDING.get("facts", [])]
+    return [n for n in facts.LAST_BINDING_NAMES.get("reach", [])
+            if not any(r == n or r.startswith(n + ":") for r in recs)]
+
+
+class _Forward:
+    """stands in for a module global that is another name of the library object: looks `_secp` up at call time, so that
+    the probe's recording proxy (installed as `_secp`) also sees calls made through the alias"""
+
+    def __getattr__(self, k):
+        return getattr(B._secp, k)
+
+
+@contextlib.contextmanager
+def library_aliases_forwarded():
+    lib = B._secp
+    saved = {k: v for k, v in vars(B).items() if v is lib and k != "_secp"}
+    for k in saved:
+        setattr(B, k, _Forward())
+    try:
+        yield
+    finally:
+        for k, v in saved.items():
+            setattr(B, k, v)
+
+
+def probe_unlisted(c, name):
+    """a function the probe table lost: exercise it directly under the recording lock / library proxy"""
+    fn = getattr(B, name, None)
+    if fn is None:
+        return
+    mks = [mk for (_, mk) in bindprobe.RECIPES.get(name, [])] or [bindprobe.guess_recipe(fn)]
+    for mk in mks:
+        if mk is None:
+            mk = lambda P: ((), {})
+        try:
+            with deadline(60.0, "the direct probe of " + name), library_aliases_forwarded():
+                r = bindprobe.probe_variant(B, name, fn, mk, bindprobe.pool(B, 0), bindprobe.pool(B, 1), bindprobe.const_ids(B))
+        except Exception as e:
+            c.extra.setdefault("completeness_probe_errors", []).append("%s: %s: %s" % (name, type(e).__name__, e))
+            continue
+        for (sym, held, site) in r["natives"]:
+            if not held:
+                c.fail("function %s of the binding module (absent from the probed table) calls native %s without holding "
+                       "the library's lock (line %s of %s)" % (name, sym, site[2], os.path.basename(B.__file__)),
+                       {"op": "unlocked-unlisted", "entry": name, "native": sym, "site": list(site),
+                        "theorem": "every_enumerated_entry_locked"})
+                return
+
+
 def search(c):
     """look for a concrete witness on the real code for whatever no longer checks"""
+    for name in completeness_failures():
+        probe_unlisted(c, name)
     for (thm, f) in fact_failures():
         name = f["name"]
         if thm == "every_entry_locked":
@@ -583,6 +639,20 @@ def run(tier, seed):
                                   "its dependants (Props/C20, driver) are rebuilt by this run")
     for o in facts.LAST_BINDING.get("obligations", []):
         c.broken.append(("facts", "undischarged: " + o))
+    # the independent enumeration (audit2 A-7): bounds the probe table from below in Props/C20Complete.lean
+    changed2, err2 = facts.regenerate("bindingnames")
+    if err2:
+        c.broken.append(("facts", "cannot enumerate the binding module: " + err2))
+    elif changed2:
+        c.extra["names_drift"] = "Generated/BindingNames.lean differed from the enumeration of the loaded module and was rewritten"
+    missing = completeness_failures()
+    for n in missing:
+        c.broken.append(("facts", "completeness: function %s of the binding module reaches the library (bytecode call graph) "
+                                  "but has no record in the probed table" % n))
+    c.extra["enumeration"] = {"functions": len(facts.LAST_BINDING_NAMES.get("rows", [])),
+                              "reaching_the_library": len(facts.LAST_BINDING_NAMES.get("reach", [])),
+                              "source_defs_mentioning_secp": len(facts.LAST_BINDING_NAMES.get("secp_defs", [])),
+                              "exempt": facts.LAST_BINDING_NAMES.get("exempt", []), "without_record": missing}
     ff = fact_failures()
     if ff:
         c.extra["fact_failures"] = [{"theorem": t, "function": f["name"], "unlocked": f["unlocked"], "shared": f["shared"]}
@@ -624,6 +694,19 @@ def replay(path):
     op = r.get("op")
     print("replay", path, "op =", op)
     facts.binding_facts()          # probe the loaded module (nothing is written)
+    if op == "unlocked-unlisted":
+        name = r["entry"]
+        fn = getattr(B, name, None)
+        if fn is None:
+            print("function %s is no longer in the module" % name)
+            return 0
+        mk = ([mk for (_, mk) in bindprobe.RECIPES.get(name, [])] or [bindprobe.guess_recipe(fn)])[0] or (lambda P: ((), {}))
+        with library_aliases_forwarded():
+            pr = bindprobe.probe_variant(B, name, fn, mk, bindprobe.pool(B, 0), bindprobe.pool(B, 1), bindprobe.const_ids(B))
+        bad = [(sym, site) for (sym, held, site) in pr["natives"] if not held]
+        print("native calls of %s:" % name, [(sym, held) for (sym, held, _) in pr["natives"]])
+        print("property", "FAILS" if bad else "holds", "for this function")
+        return 1 if bad else 0
     if op in ("unlocked-entry", "reentrant-entry", "sequential-alias"):
         name = r["entry"]
         f = [x for x in facts.LAST_BINDING["facts"] if x["name"] == name]
